@@ -381,3 +381,194 @@ def _order_body():
 
 
 lemma("cog.write_order_structural", ["C05"], inputs=dict(), body=_order_body, note="structural obligations on the AST of save_cog_with_dask (the dask graph itself cannot be run under contract)")
+
+
+# =====================================================================================================
+# BOUNDED native round trip of the parallel (dask) COG writer -- first sentence of C05
+# =====================================================================================================
+
+
+def _dcog_samples():
+    import os
+    import random
+
+    thorough = os.environ.get("PYVC_TIER", "quick") == "thorough"
+    rnd = random.Random(int(os.environ.get("PYVC_SEED", "0")))
+
+    def one(i, **fix):
+        layout = fix.get("layout", rnd.choice(["yx", "yx", "yxs", "syx"]))
+        dtype = fix.get("dtype", rnd.choice(["uint8", "int16", "uint16", "float32"]))
+        shape = fix.get("shape", rnd.choice([(300, 200), (70, 530), (1, 300), (260, 1), (17, 33), (513, 257), (64, 64)]))
+        return dict(
+            idx=i,
+            shape=shape,
+            layout=layout,
+            nsamples=1 if layout == "yx" else fix.get("nsamples", rnd.choice([2, 3])),
+            dtype=dtype,
+            nodata=fix.get("nodata", rnd.choice([None, 0, 255] if dtype == "uint8" else [None, 0, 65535] if dtype == "uint16" else [None, -1, 0] if dtype != "float32" else [None, float("nan"), -9999.0])),
+            blocksize=fix.get("blocksize", rnd.choice([None, [64], [128, 64], [48], [256, 128, 64], [(32, 64)]])),
+            compression=fix.get("compression", rnd.choice(["deflate", "deflate", "zstd", "lzw", None])),
+            predictor=fix.get("predictor", rnd.choice([None, None, True, False])),
+            chunks=fix.get("chunks", rnd.choice([(64, 64), (100, 37), (1000, 1000), (16, 256)])),
+            spill_sz=fix.get("spill_sz", rnd.choice([None, 1, 1 << 10, 1 << 20])),
+            writes_per_chunk=fix.get("writes_per_chunk", rnd.choice([None, 1, 2])),
+            scheduler=fix.get("scheduler", rnd.choice(["synchronous", "threads"])),
+            rotated=fix.get("rotated", rnd.random() < 0.2),
+            crs=rnd.choice(["EPSG:4326", "EPSG:3857", "EPSG:32633"]),
+        )
+
+    def gen():
+        fixed = [
+            dict(shape=(300, 200), layout="yx", dtype="int16", nodata=-1, blocksize=[64], chunks=(64, 64), compression="deflate"),
+            dict(shape=(1, 300), layout="yx", dtype="uint8", blocksize=[64, 32], chunks=(1, 100)),
+            dict(shape=(260, 1), layout="yx", dtype="float32", nodata=float("nan"), blocksize=[64], chunks=(64, 1)),
+            dict(shape=(17, 33), layout="yxs", nsamples=3, dtype="uint8", blocksize=[64], chunks=(17, 33)),  # narrower than a tile
+            dict(shape=(513, 257), layout="syx", nsamples=2, dtype="uint16", blocksize=[128, 64], chunks=(100, 100), spill_sz=1),
+            dict(shape=(70, 530), layout="yx", dtype="float32", nodata=-9999.0, blocksize=[256, 128, 64], chunks=(70, 64), writes_per_chunk=2, scheduler="threads"),
+            dict(shape=(64, 64), layout="yx", dtype="int16", blocksize=None, chunks=(32, 32)),
+        ]
+        i = 0
+        for f in fixed:
+            yield dict(case=one(i, **f))
+            i += 1
+        for _ in range(120 if thorough else 24):
+            yield dict(case=one(i))
+            i += 1
+
+    return "7 fixed + 24 (quick) / 120 (thorough) pseudo-random combinations of 7 shapes (incl. single row / column, narrower than a tile) x YX / YXS / SYX x dtypes x nodata x block-size lists x compression / predictor x source chunking x spill size x writes per chunk x synchronous / threaded scheduler x CRS x rotated", gen()
+
+
+def _dcog_oracle(args, run=None):
+    import io
+    import math
+    import os
+    import tempfile
+    import warnings
+
+    import dask
+    import numpy as np
+    import rasterio
+    import xarray as xr
+    from affine import Affine
+
+    from odc.geo.cog import save_cog_with_dask
+    from odc.geo.crs import CRS
+    from odc.geo.geobox import GeoBox
+    from odc.geo.xr import xr_coords
+
+    warnings.simplefilter("ignore")
+    c = args["case"]
+    h, w = c["shape"]
+    A = Affine(10.0, 0, 500_000.0, 0, -10.0, 6_000_000.0) if c["crs"] != "EPSG:4326" else Affine(0.125, 0, 15.0, 0, -0.125, 50.0)
+    if c["rotated"]:
+        A = A * Affine.rotation(17.0)
+    g = GeoBox((h, w), A, c["crs"])
+    rng = np.random.default_rng(c["idx"])
+    ns = c["nsamples"]
+    full = {"yx": (h, w), "yxs": (h, w, ns), "syx": (ns, h, w)}[c["layout"]]
+    if c["dtype"] == "float32":
+        pix = rng.normal(0, 100, size=full).astype("float32")
+    else:
+        ii = np.iinfo(c["dtype"])
+        pix = rng.integers(max(ii.min, -30000), min(ii.max, 30000), size=full, endpoint=True).astype(c["dtype"])
+    dims = {"yx": g.dimensions, "yxs": (*g.dimensions, "band"), "syx": ("band", *g.dimensions)}[c["layout"]]
+    attrs = {} if c["nodata"] is None else {"nodata": c["nodata"]}
+    xx = xr.DataArray(pix, coords=xr_coords(g), dims=dims, attrs=attrs)
+    cy, cx = c["chunks"]
+    xx = xx.chunk({g.dimensions[0]: min(cy, h), g.dimensions[1]: min(cx, w)})
+    kw = {}
+    if c["blocksize"] is not None:
+        kw["blocksize"] = list(c["blocksize"])
+    if c["compression"] is not None:
+        kw["compression"] = c["compression"]
+    if c["predictor"] is not None:
+        kw["predictor"] = c["predictor"]
+    if c["spill_sz"] is not None:
+        kw["spill_sz"] = c["spill_sz"]
+    if c["writes_per_chunk"] is not None:
+        kw["writes_per_chunk"] = c["writes_per_chunk"]
+    fails = []
+    with tempfile.TemporaryDirectory(prefix="pyvc_c05_") as tmp:
+        dst = os.path.join(tmp, "out.tif")
+        try:
+            fut = save_cog_with_dask(xx, dst, **kw)
+            with dask.config.set(scheduler=c["scheduler"]):
+                fut.compute()
+        except Exception as e:  # pylint: disable=broad-except
+            return [f"no-exception:{type(e).__name__}: {str(e)[:200]}"]
+        with open(dst, "rb") as f:
+            data = f.read()
+    want = pix if c["layout"] != "yxs" else pix.transpose([2, 0, 1])
+    want = want if want.ndim == 3 else want[np.newaxis]
+    nodata = c["nodata"]
+
+    def same(a, b):
+        return a.shape == b.shape and a.dtype == b.dtype and bool(np.array_equal(a, b, equal_nan=(a.dtype.kind == "f")))
+
+    with rasterio.MemoryFile(data) as mem:
+        with mem.open() as f:
+            H, W = f.height, f.width
+            got = f.read()
+            if not (H >= h and W >= w and same(got[:, :h, :w], want)):
+                fails.append(f"post:the original pixels read back identical inside the image extent (GDAL reader; file {H}x{W}, image {h}x{w})")
+            if tuple(f.transform)[:6] != tuple(xx.odc.geobox.transform)[:6]:
+                fails.append("post:transform read back identical (origin kept: padding on the right/bottom only)")
+            if CRS(f.crs) != g.crs:
+                fails.append("post:CRS read back identical")
+            rn = f.nodata
+            ok_nd = (rn is None and nodata is None) or (rn is not None and nodata is not None and ((math.isnan(rn) and isinstance(nodata, float) and math.isnan(nodata)) or rn == nodata))
+            if not ok_nd:
+                fails.append(f"post:nodata read back identical (wrote {nodata!r}, read {rn!r})")
+            novr = len(f.overviews(1))
+    # TIFF structure with an independent reader
+    import tifffile
+
+    with tifffile.TiffFile(io.BytesIO(data)) as t:
+        pages = list(t.pages)
+        first = pages[0]
+        arr = first.asarray()
+        if arr.ndim == 3 and first.axes.endswith("S"):
+            arr = arr.transpose([2, 0, 1])
+        arr = arr if arr.ndim == 3 else arr[np.newaxis]
+        if not same(arr[:, :h, :w], want):
+            fails.append("post:the original pixels read back identical by an independent reader (tifffile)")
+        nlev = len(pages) - 1
+        PH, PW = first.imagelength, first.imagewidth
+        if not (PH >= h and PW >= w and PH - h < (1 << nlev) + (0 if nlev else 1) and PW - w < (1 << nlev) + (0 if nlev else 1) and PH % (1 << nlev) == 0 and PW % (1 << nlev) == 0):
+            fails.append(f"post:padded only up to the next multiple of 2**levels ({h}x{w} -> {PH}x{PW} with {nlev} overview levels)")
+        prev = (PH, PW)
+        spans = []
+        for li, p in enumerate(pages):
+            if not p.is_tiled or p.tilewidth % 16 or p.tilelength % 16:
+                fails.append(f"post:tile sizes are multiples of 16 (level {li}: {p.tilelength}x{p.tilewidth})")
+            if li > 0:
+                if (p.imagelength * 2, p.imagewidth * 2) != prev:
+                    fails.append(f"post:each overview is exactly half of the previous level (level {li}: {p.imagelength}x{p.imagewidth} after {prev})")
+                prev = (p.imagelength, p.imagewidth)
+            offs, cnts = list(p.dataoffsets), list(p.databytecounts)
+            spans.append([(o, o + n) for o, n in zip(offs, cnts) if n > 0])
+        all_spans = sorted(s for lv in spans for s in lv)
+        for (a0, a1), (b0, b1) in zip(all_spans, all_spans[1:]):
+            if b0 < a1:
+                fails.append("post:tile byte ranges do not overlap")
+                break
+            if b0 > a1:
+                fails.append(f"post:tile byte ranges leave no gaps ({b0 - a1} bytes between two tiles)")
+                break
+        if nlev and spans[0] and any(s for s in spans[1:]):
+            if max(e for lv in spans[1:] for _, e in lv) > min(s for s, _ in spans[0]):
+                fails.append("post:all overview tile data precedes the full-resolution tile data")
+        if nlev != novr:
+            fails.append("post:overview count agrees between the readers")
+    return fails
+
+
+contract(
+    f"{TF}:save_cog_with_dask",
+    ["C05"],
+    ensures=[("the written file decodes to the original pixels / transform / CRS / nodata; padded right/bottom to a multiple of 2**levels; overviews halve; tiles multiples of 16; offsets without gaps or overlaps; overviews first", lambda result: True)],
+    verify=False,
+    trusted_reason="tifffile / imagecodecs encoders, GDAL and tifffile decoders, dask bag scheduling: BOUNDED native round trip; the layout arithmetic, the offset table and the multi-part assembly are proved (C05 / C06 contracts)",
+    native_samples=_dcog_samples,
+    native_oracle=_dcog_oracle,
+)
